@@ -6,7 +6,7 @@ out = []
 def inst(s, g, l, nr, nw, bar, deps, newr, neww):
     dn = {'None': '0', 'One': '1', 'Two': '2', 'TwoEqual': '2e', 'ThreeAba': '3aba'}[deps]
     name = f"step_s{s}g{g}l{l}_r{nr}w{nw}_b{bar}_d{dn}_n{newr}{neww}"
-    unw = max(s, g, l, nr + nw, newr, neww, 2) + 3
+    unw = max(s, g, l, nr + nw, newr, neww, 2, (s * g * l) if deps != 'None' else 0) + 3     # the id permutation loops over all n slots
     out.append(f"    {name} : {s}, {g}, {l}, {nr}, {nw}, {bar}, Deps::{deps}, {newr}, {neww}, {unw}")
 shapes_q = [(1,1,1),(1,2,1),(2,1,1),(2,2,1)]
 shapes_t = [(1,2,2),(1,3,1),(3,1,1),(2,2,2),(1,1,3),(1,1,4),(1,2,4),(2,1,2),(3,2,1)]
